@@ -236,7 +236,7 @@ impl Property for C08 {
     fn rule(&self) -> String {
         "cases: pairs of element recipes, half constructed equal through different internal representatives ((r-1)*Q vs -Q, P+Q-Q vs P, P+T2 vs P, \
          Q+(r-1)*Q vs identity, P-P vs T2, ...), half independent; for Element and AffinePoint: == <=> model equality <=> equal encodings, equal => \
-         equal hashes (DefaultHasher result and the recorded byte stream), and all 9 (ark) / 3 (min) identity predicates agree with the model on \
+         equal hashes (DefaultHasher result and the recorded byte stream; also of slices, Vec, arrays, tuples and Option of equal values), equal serialisations in every mode the library implements, != is the negation of ==, and all 9 (ark) / 3 (min) identity predicates agree with the model on \
          every representation. Non-trivial: model-equal pair whose hook coordinates denote different curve points; distinct by digest"
             .into()
     }
